@@ -113,7 +113,12 @@ func RunCheck(cfg CheckConfig) int {
 		return 1
 	}
 	dir, _ := os.MkdirTemp("", "govc-"+prop)
-	defer os.RemoveAll(dir)
+	if k := os.Getenv("GOVC_KEEP"); k != "" {
+		dir = k
+		os.MkdirAll(dir, 0o755)
+	} else {
+		defer os.RemoveAll(dir)
+	}
 	run := NewRun(g, dir, cfg.Timeout, cfg.Seed)
 	sel := selectContracts(g, prop)
 	reports := make([]*FuncReport, len(sel))
@@ -174,20 +179,32 @@ func RunCheck(cfg CheckConfig) int {
 				fd++
 				continue
 			}
-			// failed: is it a known finding?
-			kf := matchKnown(known, prop, o.Name)
-			if kf != nil {
-				ok := kf.Region == ""
-				if kf.Region != "" {
-					ok = run.dischargeOutsideRegion(o, kf.Region)
-				}
-				if ok {
-					if !seenKnown[kf.ID] {
-						seenKnown[kf.ID] = true
-						fmt.Fprintf(out, "KNOWN-FINDING: property=%s %s [%s]\n", prop, kf.What, kf.ID)
-						knownSeen = append(knownSeen, kf.ID+": "+kf.What)
+			// failed: is it covered by known findings?
+			kfs := matchKnown(known, prop, o.Name)
+			if len(kfs) > 0 {
+				var regions []string
+				whole := false
+				for _, kf := range kfs {
+					if kf.Region == "" {
+						whole = true
+					} else {
+						regions = append(regions, kf.Region)
 					}
-					nDis++ // discharged outside the listed region
+				}
+				ok := whole || run.dischargeOutsideRegions(o, regions)
+				if ok {
+					for _, kf := range kfs {
+						// still failing inside this region?
+						if kf.Region != "" && !run.failsInsideRegion(o, kf.Region) {
+							continue
+						}
+						if !seenKnown[kf.ID] {
+							seenKnown[kf.ID] = true
+							fmt.Fprintf(out, "KNOWN-FINDING: property=%s %s [%s]\n", prop, kf.What, kf.ID)
+							knownSeen = append(knownSeen, kf.ID+": "+kf.What)
+						}
+					}
+					nDis++ // discharged outside the listed regions
 					fd++
 					continue
 				}
@@ -268,24 +285,25 @@ func RunCheck(cfg CheckConfig) int {
 
 func round3(x float64) float64 { return float64(int(x*1000)) / 1000 }
 
-func matchKnown(known []KnownFinding, prop, obl string) *KnownFinding {
+func matchKnown(known []KnownFinding, prop, obl string) []*KnownFinding {
+	var r []*KnownFinding
 	for i := range known {
 		k := &known[i]
 		if strings.HasPrefix(k.Status, "fixed") {
 			continue
 		}
-		if k.Property != prop && !(prop == "ALL") {
+		if k.Property != prop && prop != "ALL" {
 			continue
 		}
 		if k.Obligation == obl || (strings.HasSuffix(k.Obligation, "*") && strings.HasPrefix(obl, strings.TrimSuffix(k.Obligation, "*"))) {
-			return k
+			r = append(r, k)
 		}
 	}
-	return nil
+	return r
 }
 
-// dischargeOutsideRegion re-checks an obligation under the negation of a known region.
-func (r *Run) dischargeOutsideRegion(o *Obligation, region string) (ok bool) {
+// dischargeOutsideRegions re-checks an obligation under the negation of the known regions.
+func (r *Run) dischargeOutsideRegions(o *Obligation, regions []string) (ok bool) {
 	defer func() {
 		if e := recover(); e != nil {
 			ok = false
@@ -293,14 +311,36 @@ func (r *Run) dischargeOutsideRegion(o *Obligation, region string) (ok bool) {
 	}()
 	fc := o.fc
 	env := fc.envAt(fc.entry, fc.entry)
-	reg := env.evalBoolText(region)
-	q := fc.sc.Slice(o.Reach, o.Goal, reg) + fmt.Sprintf("(assert %s)\n(assert (not %s))\n(assert (not %s))\n(check-sat)\n", o.Reach, reg, o.Goal)
+	var regs []string
+	for _, rg := range regions {
+		regs = append(regs, env.evalBoolText(rg))
+	}
+	all := Or(regs...)
+	q := fc.sc.Slice(o.Reach, o.Goal, all) + fmt.Sprintf("(assert %s)\n(assert (not %s))\n(assert (not %s))\n(check-sat)\n", o.Reach, all, o.Goal)
 	v := Decide(q, r.Dir, fileTag(o.Name)+"#outside", r.Timeout, r.Seed)
 	return v.Status == "unsat"
 }
 
+// failsInsideRegion: is there still a violation of the obligation inside the region?
+func (r *Run) failsInsideRegion(o *Obligation, region string) (bad bool) {
+	defer func() {
+		if e := recover(); e != nil {
+			bad = true
+		}
+	}()
+	fc := o.fc
+	env := fc.envAt(fc.entry, fc.entry)
+	reg := env.evalBoolText(region)
+	q := fc.sc.Slice(o.Reach, o.Goal, reg) + fmt.Sprintf("(assert %s)\n(assert %s)\n(assert (not %s))\n(check-sat)\n", o.Reach, reg, o.Goal)
+	v := Decide(q, r.Dir, fileTag(o.Name)+"#inside", r.Timeout, r.Seed)
+	return v.Status != "unsat"
+}
+
 func writeReplay(cfg CheckConfig, obl, why, details string) string {
 	dir := filepath.Join(cfg.VerifDir, "replays", cfg.Property)
+	if os.Getenv("GOVC_NOEVIDENCE") != "" {
+		dir = filepath.Join(os.TempDir(), "govc-replays", cfg.Property)
+	}
 	os.MkdirAll(dir, 0o755)
 	path := filepath.Join(dir, fileTag(obl)+".txt")
 	text := fmt.Sprintf("property: %s\nobligation: %s\nreason: %s\nrepo: %s\n\n%s\n", cfg.Property, obl, why, cfg.Repo, details)
@@ -309,6 +349,9 @@ func writeReplay(cfg CheckConfig, obl, why, details string) string {
 }
 
 func writeEvidence(cfg CheckConfig, ev *Evidence) {
+	if os.Getenv("GOVC_NOEVIDENCE") != "" {
+		return
+	}
 	dir := filepath.Join(cfg.VerifDir, "evidence")
 	os.MkdirAll(dir, 0o755)
 	b, _ := json.MarshalIndent(ev, "", " ")
